@@ -99,6 +99,10 @@ Ltac merge_apply T :=
 Theorem merge_C01 scs ops i : let w := merge_run scs ops in
   g_retpend _ w = true -> i < N _ m_n w -> Sig _ m_awaited w i -> g_out _ w = true.
 Proof. merge_apply C01_generic. Qed.
+Theorem merge_C01_quiescent scs ops i : let w := merge_run scs ops in
+  g_retpend _ w = true -> g_quiet _ w = true -> g_out _ w = false -> i < N _ m_n w -> aw _ m_awaited w i = true ->
+  polled _ w i = true /\ fired _ w i = false.
+Proof. merge_apply C01_quiescent. Qed.
 Theorem merge_C16 scs ops : g_bad16 _ (merge_run scs ops) = false.
 Proof. merge_apply C16_generic. Qed.
 Theorem merge_C20 scs ops i : let w := merge_run scs ops in
@@ -187,6 +191,10 @@ Ltac zip_apply T :=
 Theorem zip_C01 scs ops i : let w := zip_run scs ops in
   g_retpend _ w = true -> i < N _ z_n w -> Sig _ z_awaited w i -> g_out _ w = true.
 Proof. zip_apply C01_generic. Qed.
+Theorem zip_C01_quiescent scs ops i : let w := zip_run scs ops in
+  g_retpend _ w = true -> g_quiet _ w = true -> g_out _ w = false -> i < N _ z_n w -> aw _ z_awaited w i = true ->
+  polled _ w i = true /\ fired _ w i = false.
+Proof. zip_apply C01_quiescent. Qed.
 Theorem zip_C16 scs ops : g_bad16 _ (zip_run scs ops) = false.
 Proof. zip_apply C16_generic. Qed.
 Theorem zip_C20 scs ops i : let w := zip_run scs ops in
